@@ -178,6 +178,8 @@ BASE_PATS = [
     ('binop', lambda: MBinOp()),
     ('attr', lambda: MAttribute(value=MName(id='a'))),
     ('list_q', lambda: MList(elts=[MQSTAR, MName(id='a'), MQSTAR])),
+    ('ctx_load_inst', lambda: ast.Load()),                       # an expr_context INSTANCE: not compared unless ctx=True, so it matches every context node
+    ('ast_name_inst', lambda: ast.Name(id='a', ctx=ast.Store())),   # a pure AST node as pattern, its ctx instance ignored by default
 ]
 WRAPS = [
     ('plain', lambda p, q: p),
@@ -193,7 +195,13 @@ WRAPS = [
 ]
 
 
-def p1_search(bi: int, qi: int, wi: int, which: int):
+def _mk_search(wfix):
+  def p1_search(bi: int, qi: int, which: int):
+    return _p1_search(bi, qi, wfix, which)
+  return p1_search
+
+
+def _p1_search(bi: int, qi: int, wi: int, which: int):
     assume(0 <= bi < len(BASE_PATS) and 0 <= qi < len(BASE_PATS) and 0 <= wi < len(WRAPS) and 0 <= which <= 2)
     b, q, w = pc.pin(bi, 0, len(BASE_PATS) - 1), pc.pin(qi, 0, len(BASE_PATS) - 1), pc.pin(wi, 0, len(WRAPS) - 1)
     wh = pc.pin(which, 0, 2)
@@ -221,7 +229,7 @@ def p1_search(bi: int, qi: int, wi: int, which: int):
         order = {id(n): i for i, n in enumerate(f.a for f in walked)}
         pure_nodes = list(ast.walk(pure))
         live_nodes = list(ast.walk(root.a))
-        idx3 = sorted(order[id(live_nodes[i])] for i, n in enumerate(pure_nodes) if mk().match(n))
+        idx3 = sorted(order[id(live_nodes[i])] for i, n in enumerate(pure_nodes) if (M(mk()) if isinstance(mk(), ast.AST) else mk()).match(n))
         check(idx3 == sorted(idx), 'match.pure_ast_differs_from_formatted_tree.' + WRAPS[w][0], (BASE_PATS[b][0], BASE_PATS[q][0], idx, idx3))
     # repeated calls / interleaving with another pattern do not change the answer
     other = BASE_PATS[q][1]()
@@ -253,7 +261,8 @@ for _n in (0, 1, 2, 3, 4):
                           tier='quick' if _n <= 2 or (_n == 3 and _md == 1) else 'thorough', budget=900, per_path=60))
 CELLS.append(Cell('K2.leaf', k2_leaf, 'K', FNM[3:], 'Call(Name(x), [Constant(i)]) vs pattern with Name(y), Constant(j): x, y symbolic letters, i, j symbolic ints in -3..3; int vs bool/str/float constants',
                   budget=600))
-CELLS.append(Cell('P1.search_vs_match', p1_search, 'P', ['fst.match.search', 'fst.match._leaf_asts_default', 'fst.fst_traverse.walk'],
-                  f'{len(BASE_PATS)} base patterns x {len(BASE_PATS)} partner patterns x {len(WRAPS)} combinator wrappers (finite choice, solver-enumerated) on a 4-line carrier, '
-                  'its re-laid-out version and its pure AST', budget=1800, per_path=120, out='patterns outside the table; MRE source-text patterns (excluded by the property)',
-                  reset=pc.reset_globals))
+for _wi, (_wn, _wf) in enumerate(WRAPS):
+    CELLS.append(Cell(f'P1.search_vs_match[{_wn}]', _mk_search(_wi), 'P', ['fst.match.search', 'fst.match._leaf_asts_default', 'fst.fst_traverse.walk'],
+                      f'{len(BASE_PATS)} base patterns x {len(BASE_PATS)} partner patterns under combinator wrapper {_wn} (finite choice, solver-enumerated) on a 4-line carrier, '
+                      'its re-laid-out version and its pure AST', budget=900, per_path=120, out='patterns outside the table; MRE source-text patterns (excluded by the property)',
+                      reset=pc.reset_globals))
